@@ -200,6 +200,17 @@ CHECKS = {
         note="static structure: TLA+ is oracle and enumerator, there is no behaviour to explore; component instances are seeded samples.",
         technique="TLA+ tables as oracle, TLC enumeration of parameter tuples; TLC validation of recorded signature/port/connect facts",
         design="5 (C20)"),
+    "C16": dict(
+        text=("specs/Gpio.tla composes the builder layout rule, the CsrMux specification, register packing and "
+              "the pin logic; TLC model-checks Gpio_MC (conforming CSR initiator interleaved with arbitrary pin "
+              "levels, multi-chunk Mode/SetClr, 0-3 synchroniser stages) with the mode table, alt-only-in-alternate, "
+              "exact input delay against a history of pin levels, set/clear codes and per-pin independence "
+              "asserted on every transition; real gpio.Peripheral instances (1-20 pins, 8-32 bit buses) are driven "
+              "by register transactions while pins toggle and every cycle, plus the register addresses reported "
+              "by the memory map, is validated by TLC."),
+        note=TB + "; exhaustive exploration is limited to one pin (two in the thorough tier); larger instances are validated executions.",
+        technique="TLA+ composition of specs + TLC model checking; TLC trace validation of the real peripheral",
+        design="5 (C16)"),
 }
 
 PENDING = "check not built yet in this round; see DESIGN.md section 13 for the build order"
